@@ -225,3 +225,92 @@ pub proof fn lemma_grounded_is_lfp(nodes: Seq<BddNode>, fs: Seq<BF>, r: Seq<Term
     }
 }
 
+
+// ---- reduct, stable models, composition lemmas (C02 / C03)
+pub open spec fn false_part(v: Seq<Term>) -> Seq<Term> { Seq::new(v.len(), |j: int| if v[j].0 == 0 { Term(0) } else { Term(2) }) }
+pub open spec fn reduct(fs: Seq<BF>, v: Seq<Term>) -> Seq<BF> { Seq::new(fs.len(), |i: int| cof(fs[i], false_part(v), v.len() as int)) }
+// the statement's definition of a stable model, for a vector v read through tvo
+pub open spec fn is_stable(fs: Seq<BF>, v: Seq<Term>) -> bool { is_lfp(reduct(fs, v), tvs(v)) }
+
+pub proof fn lemma_lfp_unique(fs: Seq<BF>, v: Seq<Option<bool>>, w: Seq<Option<bool>>)
+    requires is_lfp(fs, v), is_lfp(fs, w),
+    ensures v == w
+{
+    assert(below(v, w)); assert(below(w, v));
+    assert forall|i: int| 0 <= i < v.len() implies v[i] == w[i] by {
+        if v[i].is_some() { } else if w[i].is_some() { }
+    }
+    assert(v =~= w);
+}
+pub proof fn lemma_cof_step_false(f: BF, v: Seq<Term>, k: int)
+    requires 0 <= k < v.len(),
+    ensures cof(f, false_part(v), k + 1) == (if v[k].0 == 0 { bf_restrict(cof(f, false_part(v), k), k as usize, false) } else { cof(f, false_part(v), k) })
+{ }
+
+
+pub proof fn lemma_tvo_gamma(nodes: Seq<BddNode>, fs: Seq<BF>, v: Seq<Term>, i: int, t: Term)
+    requires nodes_wf(nodes), nodup(nodes), t.0 < nodes.len(), 0 <= i < fs.len(), v.len() < usize::MAX,
+        den(nodes, t.0 as int) == cof(fs[i], v, v.len() as int),
+    ensures tvo(t) == gamma_at(fs, tvs(v), i)
+{
+    lemma_const_ne();
+    lemma_cof_cofv(fs[i], v);
+    let d = den(nodes, t.0 as int);
+    if t.0 >= 2 {
+        if d == bf_const(true) { lemma_canon(nodes, t.0 as int, 1); }
+        if d == bf_const(false) { lemma_canon(nodes, t.0 as int, 0); }
+    }
+}
+
+
+// ---------------- composition lemmas used by C02 / C03 / C10
+pub proof fn lemma_fix_refines_lfp(fs: Seq<BF>, g: Seq<Option<bool>>, w: Seq<Option<bool>>)
+    requires is_lfp(fs, g), is_fix(fs, w),
+    ensures below(g, w)
+{ }
+pub proof fn lemma_lfp_is_fix(fs: Seq<BF>, g: Seq<Option<bool>>)
+    requires is_lfp(fs, g),
+    ensures is_fix(fs, g)
+{ }
+pub open spec fn total(v: Seq<Option<bool>>) -> bool { forall|i: int| 0 <= i < v.len() ==> (#[trigger] v[i]).is_some() }
+pub open spec fn asg_of(v: Seq<Option<bool>>) -> Asg { |x: usize| (x as int) < v.len() && v[x as int] == Some(true) }
+// a total fixpoint of Gamma is a two-valued model: every condition evaluates to the statement's own value
+pub proof fn lemma_total_fix_is_model(fs: Seq<BF>, v: Seq<Option<bool>>, i: int)
+    requires is_fix(fs, v), total(v), 0 <= i < fs.len(),
+    ensures fs[i](asg_of(v)) == v[i].unwrap()
+{
+    lemma_const_ne();
+    let a = asg_of(v);
+    assert(v[i] == gamma_at(fs, v, i));
+    assert(ovrv(a, v) =~= a) by {
+        assert forall|x: usize| #[trigger] ovrv(a, v)(x) == a(x) by {
+            if (x as int) < v.len() { assert(v[x as int].is_some()); }
+        }
+    }
+    assert(cofv(fs[i], v)(a) == fs[i](a));
+    if v[i] == Some(true) { assert(cofv(fs[i], v) == bf_const(true)); assert(bf_const(true)(a)); }
+    else { assert(v[i] == Some(false)); assert(cofv(fs[i], v) == bf_const(false)); assert(!bf_const(false)(a)); }
+}
+// stable ==> fixpoint of the *original* Gamma (hence complete, hence a two-valued model)
+pub proof fn lemma_reduct_cof(fs: Seq<BF>, v: Seq<Term>, i: int)
+    requires 0 <= i < fs.len(), v.len() < usize::MAX, fs.len() == v.len(), forall|j: int| 0 <= j < v.len() ==> decided(#[trigger] v[j]),
+    ensures cofv(reduct(fs, v)[i], tvs(v)) == cofv(fs[i], tvs(v))
+{
+    let n = v.len() as int;
+    lemma_cof_cofv(fs[i], false_part(v));
+    assert(below(tvs(false_part(v)), tvs(v))) by {
+        assert forall|j: int| 0 <= j < n && (#[trigger] tvs(false_part(v))[j]).is_some() implies tvs(v)[j] == tvs(false_part(v))[j] by { }
+    }
+    lemma_cofv_compose(fs[i], tvs(false_part(v)), tvs(v));
+}
+pub proof fn lemma_stable_is_fix(fs: Seq<BF>, v: Seq<Term>)
+    requires is_stable(fs, v), v.len() < usize::MAX, fs.len() == v.len(), forall|j: int| 0 <= j < v.len() ==> decided(#[trigger] v[j]),
+    ensures is_fix(fs, tvs(v))
+{
+    let r = reduct(fs, v); let tv = tvs(v);
+    assert forall|i: int| 0 <= i < fs.len() implies #[trigger] tv[i] == gamma_at(fs, tv, i) by {
+        assert(tv[i] == gamma_at(r, tv, i));
+        lemma_reduct_cof(fs, v, i);
+    }
+}
+
